@@ -1935,6 +1935,7 @@ def _find_row_differences(qflat):
     diffs: 1D array
         The indices where rows change, including the first and last. Equivalent to:
         ``[0]+[i for i in range(1, len(qflat)) if np.any(qflat[i-1] != qflat[i])] + [len(qflat)]``
+        (only ``[0]`` for a `qflat` with columns but without rows).
 
     """
     if qflat.shape[1] == 0:
